@@ -122,13 +122,13 @@ theorem C18_layers_rejected_calls_invisible (s : State) (ops : List Op) :
 
 /-- non-vacuity: a history in which calls are rejected (clash, duplicate, mis-shaped, unknown name)
     between accepted ones -/
-example : (run (init .new [2, 2] 0)
+example : (run (init .new [2, 2] none)
     [.create "agents" .int 0, .create "a" .int 3, .create "a" .int 4, .newLayer "b" [3, 2] .int 0, .attach 2, .detach "zz",
      .cellSet "a" [1, 1] 7, .cellGet "a" [1, 1]]).2 =
     [.err (.value .clash), .id 1, .err (.value .exists), .id 2, .err (.value .dims), .err .key, .ok, .val 7] := by
   decide
 
-example : (accepted (init .new [2, 2] 0)
+example : (accepted (init .new [2, 2] none)
     [.create "agents" .int 0, .create "a" .int 3, .create "a" .int 4, .newLayer "b" [3, 2] .int 0, .attach 2, .detach "zz",
      .cellSet "a" [1, 1] 7, .cellGet "a" [1, 1]]).length = 4 := by
   decide
